@@ -96,8 +96,7 @@ class C17(Check):
             '(incl. a default-namespace root): to_xml -> to_ele must give an equivalent tree which xml.etree (expat) reads identically, with '
             'exactly one XML declaration, and parse_root must agree with the full parse; random tag / attribute requirement sets for '
             'validated_element; random (old, new) namespace pairs for replace_namespace - each compared with the Lean model and with a spec '
-            'written in the harness; namespace-free trees built with new_ele_ns / sub_ele_ns and nasty strings: to_xml vs the model\'to_xml with the 7-bit encodings, the same text parsed twice with the first result changed in between, replace_namespace on trees with PIs, root-only parse of whole and truncated texts against the model. '
-            's serialize byte for byte, expat vs parseDoc (theorem tree_roundtrip); a corpus of raw documents (internal-subset entities and attribute defaults, CDATA, character references, comments / PIs around the root, prefixes used only in content, namespace resets): round trip, in-scope namespace bindings per element, the tree left untouched by to_xml, xml.etree reading the serialised form as the tree. Non-trivial = a tree with >= 3 nodes; distinct by case.')
+            'written in the harness; namespace-free trees built with new_ele_ns / sub_ele_ns and nasty strings: to_xml vs the model\'s serialize byte for byte, expat vs parseDoc (theorem tree_roundtrip); a corpus of raw documents (internal-subset entities and attribute defaults, CDATA, character references, comments / PIs around the root, prefixes used only in content, namespace resets): round trip, in-scope namespace bindings per element, the tree left untouched by to_xml, xml.etree reading the serialised form as the tree. to_xml with the 7-bit encodings, the same text parsed twice with the first result changed in between, replace_namespace on trees with PIs, root-only parse of whole and truncated texts against the model. Non-trivial = a tree with >= 3 nodes; distinct by case.')
     TRUST = ['lxml parser / serialiser and expat are MODELLED for namespace-free trees (Model/XmlDoc.lean: serialize / parseDoc, compared with to_xml and expat each run) and environment otherwise (prefixes, comments, PIs, CDATA, DTD): there the round trip is a correspondence result']
     ASSUMPTIONS = ['replace_namespace: an element carrying both {old}a and {new}a attributes loses one of them (premise of replaceAttrs_exact; '
                    'such inputs are not generated)']
